@@ -134,7 +134,8 @@ class GenFile:
             self.systems = {"S1": (["G2"], [])}
             if rng.random() < 0.5:
                 # a default group: it receives the units that no @group block defines
-                self.defaults = {"group": "GD", "system": "S1"}
+                # (both keys are optional: a block may give only one of them)
+                self.defaults = rng.choice([{"group": "GD", "system": "S1"}, {"group": "GD", "system": "S1"}, {"group": "GD"}, {"system": "S1"}])
         # a context with a parameter default and a rule between two base dimensions of the file
         self.context = None
         if "metre" in self.base and "second" in self.base and rng.random() < 0.7:
